@@ -4,6 +4,7 @@ package main
 
 import (
 	"fmt"
+	"go/token"
 	"strings"
 
 	"golang.org/x/tools/go/ssa"
@@ -129,30 +130,39 @@ func runC03(w *World, r *Report) {
 	rollbackReservation(w, r, "rollback-reservation")
 
 	// 3b. deletion of a tentative vertex is followed by removal of its index entry
-	r.rule("delete-with-index", "every DeleteVertex(v) outside truncate is followed on all paths by removeTrxInVertex(v.Transaction.Hash)", 2)
-	for _, fn := range w.RepoFuncs("accountant") {
-		for _, d := range callsTo(fn, nDeleteVertex) {
-			if truncateOwns(w, d) {
-				continue
-			}
-			_, a := callArgs(d)
-			vx, ok := vertexOfHashArg(a[0])
-			key := shortFn(fn) + "/DeleteVertex"
-			if !ok {
-				r.undecided("delete-with-index", key, lineOf(w, d), "deleted vertex must be identifiable", "argument is not string(v.Hash[:]): "+pathOf(a[0]))
-				continue
-			}
-			v := pathOf(vx)
-			exits := exitsAvoiding(d, nil, func(in ssa.Instruction) bool {
-				c, ok := in.(ssa.CallInstruction)
-				if !ok || calleeName(c) != nRemoveTrx {
-					return false
-				}
-				_, ra := callArgs(c)
-				return trxHashPathOKUp(w, fn, v, pathOf(ra[0]), 2)
-			})
-			r.check(len(exits) == 0, "delete-with-index", key+"("+v+")", lineOf(w, d), "index entry of the deleted vertex is removed on every path", fmt.Sprintf("%d exits reachable without removeTrxInVertex(%s.Transaction.Hash)", len(exits), v))
+	deleteWithIndex(w, r, "delete-with-index")
+
+	// what is sealed is recorded in one place: the index functions answer from the index database and keep no second copy of
+	// an answer (a remembered "already sealed" outlives the release of the entry it was read from)
+	r.rule("index-is-the-only-memory", "saveTrxInVertex, removeTrxInVertex and checkTrxInVertexExists (with the literals in them) touch no field of the AccountingBook other than the index database and the logger, and no package-level variable", 3)
+	for _, name := range []string{"saveTrxInVertex", "removeTrxInVertex", "checkTrxInVertexExists"} {
+		fn := w.Func("accountant", "AccountingBook", name)
+		if fn == nil {
+			r.bad("index-is-the-only-memory", name, "-", "the index function must resolve", "not found")
+			continue
 		}
+		other := ""
+		for _, g := range WithAnon(fn) {
+			instrsOf(g, func(in ssa.Instruction) {
+				switch x := in.(type) {
+				case *ssa.FieldAddr:
+					if strings.HasSuffix(deref(x.X.Type()).String(), "accountant.AccountingBook") {
+						if f := fieldName(x.X.Type(), x.Field); f != "trxsToVertxDB" && f != "log" {
+							other += " ." + f + " at " + lineOf(w, x) + ";"
+						}
+					}
+				case *ssa.UnOp:
+					if gl, ok := x.X.(*ssa.Global); ok && x.Op == token.MUL && gl.Pkg != nil && strings.HasPrefix(gl.Pkg.Pkg.Path(), modPath) && !strings.HasPrefix(gl.Name(), "Err") {
+						other += " package variable " + gl.Name() + " at " + lineOf(w, x) + ";"
+					}
+				case *ssa.Store:
+					if gl, ok := x.Addr.(*ssa.Global); ok && gl.Pkg != nil && strings.HasPrefix(gl.Pkg.Pkg.Path(), modPath) {
+						other += " package variable " + gl.Name() + " written at " + lineOf(w, x) + ";"
+					}
+				}
+			})
+		}
+		r.check(other == "", "index-is-the-only-memory", name, w.Pos(fn.Pos()), "the function works on the index database only", "it also touches"+other+" an answer kept outside the index is not released with the entry")
 	}
 
 	// 3b'. an index entry is released only together with its vertex or as the roll-back of its own reservation
@@ -165,17 +175,30 @@ func runC03(w *World, r *Report) {
 		if f == nil {
 			continue
 		}
+		// the verdict and the drop may both sit in a helper that handles one parent: the host is where validateLeaf is called
+		hosts := []*ssa.Function{}
 		for _, g := range withHelpers(f.fn, 1) {
-			for _, c := range callsTo(g, nRemoveTrx) {
+			if len(callsTo(g, cn("accountant", "*AccountingBook", "validateLeaf"))) > 0 {
+				hosts = append(hosts, g)
+			}
+		}
+		if len(hosts) == 0 {
+			hosts = append(hosts, f.fn)
+		}
+		for _, fn := range hosts {
+			nVal := len(callsTo(fn, cn("accountant", "*AccountingBook", "validateLeaf")))
+			for _, d := range deepCalls(fn, byName(nRemoveTrx), 1) {
+				c := d.c
 				_, a := callArgs(c)
-				hp := pathOf(a[0])
+				hp := d.path(a[0]) // in the naming of the admission function
 				if !strings.HasSuffix(hp, ".Transaction.Hash") {
 					continue
 				}
 				vp := strings.TrimSuffix(hp, ".Transaction.Hash")
-				// validations of that very vertex in this function
+				key := shortFn(fn) + "/removeTrxInVertex(" + hp + ")"
+				// validations of that very vertex in the admission function
 				var fails []Edge
-				for _, vc := range callsTo(g, cn("accountant", "*AccountingBook", "validateLeaf")) {
+				for _, vc := range callsTo(fn, cn("accountant", "*AccountingBook", "validateLeaf")) {
 					_, va := callArgs(vc)
 					if len(va) >= 2 && pathOf(va[1]) == vp {
 						fails = append(fails, failErrNonNil(vc)...)
@@ -183,23 +206,28 @@ func runC03(w *World, r *Report) {
 				}
 				if len(fails) == 0 {
 					own := false
-					for _, sc := range callsTo(g, nSaveTrx) {
-						_, sa := callArgs(sc)
-						if len(sa) > 0 && pathOf(sa[0]) == hp {
+					for _, sc := range deepCalls(fn, byName(nSaveTrx), 1) {
+						_, sa := callArgs(sc.c)
+						if len(sa) > 0 && sc.path(sa[0]) == hp {
 							own = true
 						}
 					}
-					if own || len(callsTo(g, cn("accountant", "*AccountingBook", "validateLeaf"))) == 0 {
+					if own || nVal == 0 {
 						continue // a roll-back of the function's own reservation: judged by index-removal-paired
 					}
-					r.bad("verdict-and-drop-in-one-critical-section", shortFn(g)+"/removeTrxInVertex("+hp+")", lineOf(w, c), "the index entry of an invalid tip is released in the critical section that found it invalid",
+					r.bad("verdict-and-drop-in-one-critical-section", key, lineOf(w, c), "the index entry of an invalid tip is released in the critical section that found it invalid",
 						"the entry released belongs to "+vp+", which is not the value any validateLeaf of this function was called on: the verdict was carried over in a variable")
 					continue
+				}
+				// the site in the admission function through which the release is reached
+				var site ssa.Instruction = c.(ssa.Instruction)
+				if len(d.chain) > 0 {
+					site = d.chain[0].(ssa.Instruction)
 				}
 				crossed := ""
 				for _, fe := range fails {
 					walkFrom(nil, fe.To(), nil, func(x ssa.Instruction) bool {
-						if x == c.(ssa.Instruction) {
+						if x == site {
 							return true
 						}
 						if uc, isCall := x.(ssa.CallInstruction); isCall {
@@ -212,7 +240,19 @@ func runC03(w *World, r *Report) {
 						return crossed != ""
 					})
 				}
-				r.check(behind(c.(ssa.Instruction), fails) && crossed == "", "verdict-and-drop-in-one-critical-section", shortFn(g)+"/removeTrxInVertex("+pathOf(a[0])+")", lineOf(w, c),
+				// a helper that does the release must not give the lock up itself before it
+				if len(d.chain) > 0 {
+					instrsOf(c.Parent(), func(x ssa.Instruction) {
+						if uc, isCall := x.(ssa.CallInstruction); isCall {
+							if _, isDefer := x.(*ssa.Defer); !isDefer {
+								if op, _, id, isLock := lockOp(uc); isLock && op == "unlock" && id == abMux {
+									crossed = lineOf(w, x)
+								}
+							}
+						}
+					})
+				}
+				r.check(behind(site, fails) && crossed == "", "verdict-and-drop-in-one-critical-section", key, lineOf(w, c),
 					"the index entry of an invalid tip is released in the critical section that found it invalid", "between the failed validateLeaf and the release the ledger lock is given up at "+crossed+" (or the release is reachable without that verdict): by then the tip may be gone and its transaction sealed in another vertex, whose entry the release deletes")
 			}
 		}
@@ -569,5 +609,36 @@ func reserveBeforeInsert(w *World, r *Report, rule, only string, floor int) {
 		}
 		found := behindDeepSite(st.d, reserved)
 		r.check(found, rule, key, lineOf(w, s), "insertion only after the transaction hash was reserved for this vertex", why)
+	}
+}
+
+// deleteWithIndex: a vertex that leaves the live graph outside a truncation takes its index entry with it — on every
+// path, and the entry released is the one of the deleted vertex (shared by C03 and C09: a dangling entry refuses the
+// vertex, and every vertex carrying that transaction, for good).
+func deleteWithIndex(w *World, r *Report, rule string) {
+	r.rule(rule, "every DeleteVertex(v) outside truncate is followed on all paths by removeTrxInVertex(v.Transaction.Hash)", 2)
+	for _, fn := range w.RepoFuncs("accountant") {
+		for _, d := range callsTo(fn, nDeleteVertex) {
+			if truncateOwns(w, d) {
+				continue
+			}
+			_, a := callArgs(d)
+			vx, ok := vertexOfHashArg(a[0])
+			key := shortFn(fn) + "/DeleteVertex"
+			if !ok {
+				r.undecided(rule, key, lineOf(w, d), "deleted vertex must be identifiable", "argument is not string(v.Hash[:]): "+pathOf(a[0]))
+				continue
+			}
+			v := pathOf(vx)
+			exits := exitsAvoiding(d, nil, func(in ssa.Instruction) bool {
+				c, ok := in.(ssa.CallInstruction)
+				if !ok || calleeName(c) != nRemoveTrx {
+					return false
+				}
+				_, ra := callArgs(c)
+				return trxHashPathOKUp(w, fn, v, pathOf(ra[0]), 2)
+			})
+			r.check(len(exits) == 0, rule, key+"("+v+")", lineOf(w, d), "index entry of the deleted vertex is removed on every path", fmt.Sprintf("%d exits reachable without removeTrxInVertex(%s.Transaction.Hash)", len(exits), v))
+		}
 	}
 }
